@@ -56,21 +56,28 @@ def check_arith(acc, pendulum, u, kw, variants=True):
     t = pendulum.Time(*us_fields(u))
     exp = us_fields((u + A) % DAYUS)
     case = {"kind": "arith", "u": u, "kw": kw}
-    r = t.add(**kw)
+
+    def attempt(fn):
+        try:
+            x = fn()
+            return [type(x).__name__, (x.hour, x.minute, x.second, x.microsecond)], x
+        except Exception as e:  # noqa: BLE001
+            return [f"raises {type(e).__name__}", str(e)[:60]], None
+    got, r = attempt(lambda: t.add(**kw))
     acc.c["evaluations"] += 1
     acc.c["transitions"] += 1
-    if type(r) is not pendulum.Time or (r.hour, r.minute, r.second, r.microsecond) != exp:
-        acc.mismatch("add", "value", case, [type(r).__name__, (r.hour, r.minute, r.second, r.microsecond)],
-                     ["Time", exp])
-    b = r.subtract(**kw)
-    acc.c["evaluations"] += 1
-    if t_us(b) != u or type(b) is not pendulum.Time:
-        acc.mismatch("inverse", "subtract-after-add", case, us_fields(t_us(b)), us_fields(u))
+    if got != ["Time", exp]:
+        acc.mismatch("add", "value", case, got, ["Time", exp])
+    if r is not None:
+        gotb, b = attempt(lambda: r.subtract(**kw))
+        acc.c["evaluations"] += 1
+        if gotb != ["Time", us_fields(u)]:
+            acc.mismatch("inverse", "subtract-after-add", case, gotb, ["Time", us_fields(u)])
     exp_s = us_fields((u - A) % DAYUS)
-    r2 = t.subtract(**kw)
+    got2, r2 = attempt(lambda: t.subtract(**kw))
     acc.c["evaluations"] += 1
-    if (r2.hour, r2.minute, r2.second, r2.microsecond) != exp_s or type(r2) is not pendulum.Time:
-        acc.mismatch("subtract", "value", case, (r2.hour, r2.minute, r2.second, r2.microsecond), exp_s)
+    if got2 != ["Time", exp_s]:
+        acc.mismatch("subtract", "value", case, got2, ["Time", exp_s])
     # aware receivers naming the same instant of the day with different clock readings (equal and hash-equal to
     # each other, so anything memoised per receiver must not leak from one to the next)
     for off in AWARE_OFFSETS:
@@ -78,12 +85,11 @@ def check_arith(acc, pendulum, u, kw, variants=True):
         ta = pendulum.Time(*us_fields(ua), tzinfo=_fixed(pendulum, off))
         for name, fn, expv in (("add", lambda: ta.add(**kw), us_fields((ua + A) % DAYUS)),
                                ("subtract", lambda: ta.subtract(**kw), us_fields((ua - A) % DAYUS))):
-            x = fn()
+            got, x = attempt(fn)
             acc.c["evaluations"] += 1
             acc.c["transitions"] += 1
-            got = (x.hour, x.minute, x.second, x.microsecond)
-            if got != expv or type(x) is not pendulum.Time:
-                acc.mismatch(name, "aware-receiver", dict(case, offset=off), [type(x).__name__, got], ["Time", expv])
+            if got != ["Time", expv]:
+                acc.mismatch(name, "aware-receiver", dict(case, offset=off), got, ["Time", expv])
     if not variants:
         return
     td = dt_.timedelta(**kw)
